@@ -248,23 +248,29 @@ func randCharNotInString(str string) (string, error) {
 	if err != nil {
 		return "", err
 	}
-	addRune := '0'
-	for {
+	// candidate separators: digits and punctuation that is neither a letter (option names are made
+	// of letters), nor '.', nor '=' (the decoder splits "NAME=value" on the first '='), nor a regexp
+	// metacharacter (the separator is fed to grep and cut by the decoder)
+	const candidates = "0123456789:;<>?@"
+	var (
+		addRune rune
+		found   bool
+	)
+	for _, candidate := range candidates {
 		runeSeen := false
 		for _, cr := range runes {
-			if cr == addRune {
+			if cr == candidate {
 				runeSeen = true
 				break
 			}
 		}
 		if !runeSeen {
+			addRune, found = candidate, true
 			break
 		}
-		addRune++
-		// todo: generalize disallowed characters to include things other than '.'
-		if addRune == '.' {
-			addRune++
-		}
+	}
+	if !found {
+		return "", errors.New("cannot find a separator: the parameter values use every candidate separator character")
 	}
 	var rb strings.Builder
 	_, err = rb.WriteRune(addRune)
